@@ -183,6 +183,44 @@ class S3(Scenario):
         return residue_problems() + lru_problems()
 
 
+class S3c(S3):
+    """three threads through a cache of size 2"""
+    name = "S3c_template_cache_lru_three_threads"
+    bound_quick = 1
+    bound_thorough = 2
+
+    def setup(self):
+        tasks = super().setup()
+        from django.template import Context
+
+        from django_components.template import cached_template
+
+        def third():
+            return "".join(cached_template(self.SRCS[i]).render(Context({"v": i})) for i in (1, 3, 0))
+
+        return tasks + [third]
+
+
+class S1c(Scenario):
+    """three threads: two healthy provide->consumer renders around one failing render"""
+    name = "S1c_provide_error_path_three_threads"
+    bound_quick = 1
+    bound_thorough = 2
+
+    def __init__(self):
+        from django.template import Template
+
+        _mk("s1cc", "(c:{{ v }})", _consumer_gcd)
+        _mk("s1cboom", "never", _boom_gcd)
+        self.ta = Template('{% provide "k" v="A" %}{% component "s1cc" / %}{% endprovide %}')
+        self.tb = Template('{% provide "k" v="B" %}{% component "s1cboom" / %}{% endprovide %}')
+        self.tc = Template('{% provide "k" v="C" %}{% component "s1cc" / %}{% component "s1cc" / %}{% endprovide %}')
+
+    def setup(self):
+        self.reset_common()
+        return [_render_tpl(self.ta), _render_tpl(self.tb), _render_tpl(self.tc)]
+
+
 class S3b(Scenario):
     """component renders (inline templates) through a cache of size 1"""
     name = "S3b_component_templates_small_cache"
@@ -338,7 +376,7 @@ class S6(Scenario):
         return [_render_tpl(self.ta), _render_tpl(self.tb)]
 
 
-SCENARIOS = {c.name: c for c in (S1, S2, S3, S3b, S4, S4b, S5, S6)}
+SCENARIOS = {c.name: c for c in (S1, S1c, S2, S3, S3b, S3c, S4, S4b, S5, S6)}
 _SC = {}
 _SET = {}
 
@@ -462,7 +500,7 @@ def run(ctx):
     ev = ctx.ev
     thorough = ctx.tier == "thorough"
     lines, files, shared = get_set()
-    ev.rule = ("SCHED: all schedules of 2 real threads with <= k preemptions, scheduling point = every executed line in the scheduling set "
+    ev.rule = ("SCHED: all schedules of 2-3 real threads with <= k preemptions, scheduling point = every executed line in the scheduling set "
                "(AST scan of the working tree); non-trivial = executions with >= 1 preemption (all but the default schedule)")
     ev.extra["scheduling_set_lines"] = len(lines)
     ev.extra["shared_globals_found"] = shared
@@ -474,7 +512,7 @@ def run(ctx):
         r = explore_scenario(name, bound)
         r["wall_s"] = round(_time.time() - _t0, 1)
         ev.add_part(name, states=r["executions"], transitions=r["transitions"], validated=r["executions"], nontrivial=r["executions"] - 1,
-                    observed_distinct=r["outcomes"], bound={"preemption_bound_completed": bound, "threads": 2, "points_max": r["points_max"], "wall_s": r["wall_s"]},
+                    observed_distinct=r["outcomes"], bound={"preemption_bound_completed": bound, "threads": len(r["solo"]), "points_max": r["points_max"], "wall_s": r["wall_s"]},
                     samples=[{"scenario": name, "solo_results": [list(map(str, s))[:2] for s in r["solo"]], "first_level_branches": r["first_level"]}])
         ctx.fnd.merge_reports(r["failures"])
     boot.set_components_setting(template_cache_size=128)
